@@ -92,10 +92,14 @@ def r_configs(tier: str) -> List[Tuple[Any, Any, str]]:
     langs = list(dr.languages(2))
     res = []
     if tier == "quick":
-        packs = [("r", "r")]
+        # ("rxebR", "r") / ("rxeaR", "r"): the smallest pack pairs in which D17 shows
+        packs = [("r", "r"), ("rxebR", "r"), ("rxeaR", "r")]
         variants = ("plain+exhausted", "eqpath+exhausted")
     else:
         packs = [("r", "r"), ("rL", "rR"), ("r2", "r2R"), ("r", "rL")]
+        # restricted last-letter strategies on one side: classes of one universe then have
+        # different sets of alternative rules, listed in different orders
+        packs += [(f"rx{o}{l}{r}", other) for o in "en" for l in "ab" for r in ("", "R") for other in ("r", "rRL")]
         variants = ("plain", "eqpath", "plain+exhausted", "eqpath+exhausted")
     for pa, pb in packs:
         for a in langs:
@@ -105,8 +109,10 @@ def r_configs(tier: str) -> List[Tuple[Any, Any, str]]:
                 same = all(dr.counts(a, n) == dr.counts(b, n) for n in range(5))
                 if not same and (hash((a, b)) % 11):
                     continue
-                for v in variants:
+                for v in variants if not pa.startswith("rx") else ("plain+exhausted", "eqpath+exhausted"):
                     res.append((RCfg.of(a, pa, "RuleDB"), RCfg.of(b, pb, "RuleDB"), v))
+                    if pa.startswith("rx"):
+                        res.append((RCfg.of(b, pb, "RuleDB"), RCfg.of(a, pa, "RuleDB"), v))
     return res
 
 
